@@ -375,66 +375,98 @@ pub struct Staged {
     pub case_of: fn(Tier, usize, u64) -> Value,
 }
 
-fn spawn_child(property: &str, tier: Tier, stage: usize, lo: u64, hi: u64) -> Result<Acc, String> {
+/// Why a child died: evidence of undefined behaviour in the code under test (the harness is
+/// safe Rust), or a resource problem of the machinery.
+fn classify_death(status: &std::process::ExitStatus, stderr_tail: &str) -> (bool, String) {
+    use std::os::unix::process::ExitStatusExt;
+    let sig = status.signal();
+    let t = stderr_tail.to_lowercase();
+    let ub_words = ["free()", "malloc", "corrupt", "double free", "unsafe precondition", "munmap_chunk", "realloc()", "invalid pointer", "invalid size", "stack smashing", "misaligned"];
+    let resource = t.contains("memory allocation of") || sig == Some(9);
+    let ub = !resource && (sig == Some(11) || sig == Some(7) || sig == Some(4) || (sig == Some(6) && ub_words.iter().any(|w| t.contains(w))) || ub_words.iter().any(|w| t.contains(w)));
+    let last = stderr_tail.lines().rev().find(|l| !l.trim().is_empty()).unwrap_or("").trim().to_string();
+    (ub, format!("{status}; stderr: {}", last.chars().take(160).collect::<String>()))
+}
+
+pub enum ChildDeath {
+    /// died in a way that indicates UB in the subject
+    Ub(String),
+    /// died for a machinery reason (OOM kill, allocation failure, spawn failure, bad report)
+    Machinery(String),
+}
+
+fn spawn_child(property: &str, tier: Tier, stage: usize, lo: u64, hi: u64) -> Result<Acc, ChildDeath> {
     let exe = std::env::current_exe().expect("current_exe");
     let scratch = std::env::var("MC_SCRATCH").map(std::path::PathBuf::from).unwrap_or_else(|_| std::env::temp_dir());
     let out = scratch.join(format!("mc-child-{}-{}-{}-{}-{}.json", std::process::id(), property, stage, lo, hi));
     let _ = std::fs::remove_file(&out);
-    let status = std::process::Command::new(exe)
+    let output = std::process::Command::new(exe)
         .args(["child", property, tier.name(), &stage.to_string(), &lo.to_string(), &hi.to_string()])
         .arg(&out)
-        .stderr(std::process::Stdio::null())
-        .status()
-        .map_err(|e| format!("spawn failed: {e}"))?;
-    let res = if status.success() {
-        std::fs::read_to_string(&out).map_err(|e| format!("child report unreadable: {e}")).and_then(|s| serde_json::from_str::<Value>(&s).map_err(|e| format!("child report unparsable: {e}"))).map(|v| Acc::from_json(&v))
+        .stdout(std::process::Stdio::null())
+        .stderr(std::process::Stdio::piped())
+        .output()
+        .map_err(|e| ChildDeath::Machinery(format!("spawn failed: {e}")))?;
+    let res = if output.status.success() {
+        std::fs::read_to_string(&out)
+            .map_err(|e| format!("child report unreadable: {e}"))
+            .and_then(|s| serde_json::from_str::<Value>(&s).map_err(|e| format!("child report unparsable: {e}")))
+            .map(|v| Acc::from_json(&v))
+            .map_err(ChildDeath::Machinery)
     } else {
-        Err(format!("{status}"))
+        let err = String::from_utf8_lossy(&output.stderr);
+        let tail: String = err.chars().rev().take(4000).collect::<String>().chars().rev().collect();
+        let (ub, why) = classify_death(&output.status, &tail);
+        Err(if ub { ChildDeath::Ub(why) } else { ChildDeath::Machinery(why) })
     };
     let _ = std::fs::remove_file(&out);
     res
 }
 
-/// Run every stage in a child process. A child that dies is bisected down to the first single
-/// case that kills a child, which is reported as a violation (key `process-abort ...`).
+/// Run every stage in a child process. A child that dies with evidence of undefined behaviour is
+/// bisected towards the first single case that kills a child; that case (or, if the death does not
+/// localise — typical for heap corruption detected later by the allocator — the smallest dying
+/// range) is reported as a violation with key `process-abort ...`.
 pub fn run_staged(tier: Tier, st: &Staged, rep: &mut Report) {
     for (si, (name, total)) in st.stages.iter().enumerate() {
         match spawn_child(st.property, tier, si, 0, *total) {
             Ok(acc) => rep.acc.merge(acc),
-            Err(first) => {
-                // bisect [lo,hi): invariant = a child over [lo,hi) dies
+            Err(ChildDeath::Machinery(why)) => {
+                rep.guard(&format!("stage '{name}': child failed for a machinery reason ({why})"), false);
+            }
+            Err(ChildDeath::Ub(first)) => {
                 let (mut lo, mut hi) = (0u64, *total);
                 let mut last = first;
                 while hi - lo > 1 {
                     let mid = lo + (hi - lo) / 2;
                     match spawn_child(st.property, tier, si, lo, mid) {
-                        Err(e) => {
+                        Err(ChildDeath::Ub(e)) => {
                             hi = mid;
                             last = e;
                         }
-                        Ok(_) => match spawn_child(st.property, tier, si, mid, hi) {
-                            Err(e) => {
+                        _ => match spawn_child(st.property, tier, si, mid, hi) {
+                            Err(ChildDeath::Ub(e)) => {
                                 lo = mid;
                                 last = e;
                             }
-                            Ok(_) => {
-                                // neither half dies alone: not a deterministic single-case abort
-                                rep.guard(&format!("stage '{name}': child died ({last}) but the failure could not be bisected to one case"), false);
-                                break;
-                            }
+                            _ => break, // neither half dies alone: report the range
                         },
                     }
                 }
+                let stage_key = name.replace(' ', "_");
                 if hi - lo == 1 {
-                    let case = (st.case_of)(tier, si, lo);
+                    let mut case = (st.case_of)(tier, si, lo);
+                    case["expect_death"] = json!(true);
+                    rep.acc.violation(lo, format!("process-abort stage={stage_key}"), format!("the process running case {lo} of stage '{name}' died: {last}"), case);
+                } else {
                     rep.acc.violation(
                         lo,
-                        format!("process-abort stage={}", name.replace(' ', "_")),
-                        format!("the process running case {lo} of stage '{name}' died: {last}"),
-                        case,
+                        format!("process-abort stage={stage_key} (range)"),
+                        format!("the process running cases [{lo},{hi}) of stage '{name}' died: {last}"),
+                        json!({"kind":"range","property":st.property,"tier":tier.name(),"stage":si,"lo":lo,"hi":hi,"expect_death":true}),
                     );
-                    rep.acc.bucket("child process died", 1);
                 }
+                rep.acc.bucket("child process died (undefined behaviour in the subject)", 1);
             }
         }
     }
